@@ -180,6 +180,8 @@ def check_sized_usage_widths(fx, rep):
             wt = T.term(w, env, mutated)
             asks = isinstance(wt, tuple) and wt[0] == "call" and isinstance(wt[1], str) and F.strip_generics(wt[1]) == sz["def"] and wt[2] and wt[2][0] == ut
             v = cval(wt)
+            if isinstance(wt, tuple) and wt[0] == "path" and str(wt[1]).endswith("::None"):
+                v = "an unknown number of"  # the word x word arm joins an unknown width with ANY width: the usage's own width is lost
             if not asks and v is None:
                 continue  # a width computed at run time: evidence about this particular value, not a statement about the usage
             n += 1
